@@ -229,6 +229,9 @@ func checkFinalFiles(root *simrt.Inode, ex *Expect, allowTmp bool) (string, stri
 			if ex.StreamPaths[b] {
 				continue
 			}
+			if _, ok := ex.WF.Sources[strings.TrimPrefix(b, "/work/")]; ok && ex.Tagged {
+				continue // a tagging component writes the record of the file it tags
+			}
 		}
 		if strings.HasSuffix(p, "/.keep") {
 			continue
